@@ -125,3 +125,90 @@ func c04includeSearch(c *core.Check) {
 	})
 	c.Min("include-search-miss-reported", 2)
 }
+
+// c04fieldDefaults: a parser.Field carries a type and an optional default value; both hold names that the semantic pass has
+// to resolve (the default's identifiers get their ConstValueExtra there, and an undefined identifier is diagnosed there).
+// The back end dereferences that resolution result without a nil test, so a field list whose types are resolved but whose
+// defaults are not makes thriftgo die with a panic trace on `void f(1: i32 a = K)` — for a defined K as much as for an
+// undefined one. Rule: wherever the resolver calls ResolveType(E.Type) on a *parser.Field E, the same function also
+// resolves E.Default (ResolveConstValue(E.Default)).
+func c04fieldDefaults(c *core.Check) {
+	rel := "semantic"
+	pk := c.Prog.Pkg(rel)
+	if pk == nil {
+		c.Unknown("anchor", rel, "", "package missing")
+		return
+	}
+	info := pk.TypesInfo
+	n := 0
+	c.Prog.AllFuncDecls(rel, func(file *ast.File, fd *ast.FuncDecl) {
+		if fd.Body == nil || strings.HasSuffix(c.Prog.Fset.File(fd.Pos()).Name(), "_test.go") {
+			return
+		}
+		// scopes: the function body and every loop / closure body inside it
+		scopes := []ast.Node{fd.Body}
+		ast.Inspect(fd.Body, func(m ast.Node) bool {
+			switch x := m.(type) {
+			case *ast.RangeStmt:
+				scopes = append(scopes, x.Body)
+			case *ast.ForStmt:
+				scopes = append(scopes, x.Body)
+			case *ast.FuncLit:
+				scopes = append(scopes, x.Body)
+			}
+			return true
+		})
+		innermost := func(pos token.Pos) ast.Node {
+			var best ast.Node
+			for _, sc := range scopes {
+				if sc.Pos() <= pos && pos < sc.End() && (best == nil || sc.Pos() >= best.Pos()) {
+					best = sc
+				}
+			}
+			return best
+		}
+		fieldArg := func(call *ast.CallExpr, callee, field string) (string, bool) {
+			fn := rules.Callee(info, call)
+			if fn == nil || fn.Name() != callee || len(call.Args) != 1 {
+				return "", false
+			}
+			sel, ok := ast.Unparen(call.Args[0]).(*ast.SelectorExpr)
+			if !ok || sel.Sel.Name != field {
+				return "", false
+			}
+			tv, ok := info.Types[sel.X]
+			if !ok || !strings.HasSuffix(tv.Type.String(), "parser.Field") {
+				return "", false
+			}
+			return rules.ExprString(sel.X), true
+		}
+		per := 0
+		for _, call := range rules.Calls(fd.Body, true) {
+			base, ok := fieldArg(call, "ResolveType", "Type")
+			if !ok {
+				continue
+			}
+			per++
+			n++
+			sc := innermost(call.Pos())
+			done := false
+			for _, other := range rules.Calls(sc, true) {
+				if b2, ok := fieldArg(other, "ResolveConstValue", "Default"); ok && b2 == base {
+					done = true
+				}
+			}
+			c.Decide(done, "field-defaults-resolved", fmt.Sprintf("%s/%s#%d", core.FuncKey(rel, fd), base, per), c.Prog.Rel(call.Pos()),
+				"the field's default value is resolved where its type is",
+				"the type of field "+base+" is resolved here but its default value never is: an identifier in the default (`void f(1: i32 a = K)`) reaches the back end unresolved, which dereferences the missing resolution result — thriftgo prints a panic trace instead of code or a diagnostic, and an undefined identifier there is never reported")
+		}
+	})
+	c.Min("field-defaults-resolved", 3)
+}
+
+func sortStrings(s []string) {
+	for i := 1; i < len(s); i++ {
+		for j := i; j > 0 && s[j] < s[j-1]; j-- {
+			s[j], s[j-1] = s[j-1], s[j]
+		}
+	}
+}
